@@ -21,11 +21,13 @@ def is_perm(t):
 
 
 def ranks(keys):
-    """keys: pairwise distinct sortable objects.  Position i gets the rank of keys[i]."""
+    """keys: pairwise distinct sortable (and hashable) objects.  Position i gets the rank of
+    keys[i]."""
     keys = list(keys)
     order = sorted(keys)
     assert all(order[i] < order[i + 1] for i in range(len(order) - 1)), "keys not distinct"
-    return tuple(order.index(k) for k in keys)
+    rank = {k: r for r, k in enumerate(order)}
+    return tuple(rank[k] for k in keys)
 
 
 def from_points(pts):
@@ -196,6 +198,21 @@ def intervals(p):
     return out
 
 
+def intervals_minmax(p):
+    """Same answer as `intervals` for long permutations: a set of L distinct integers is a set of
+    consecutive integers iff max - min = L - 1.  Every window is looked at on its own (built-in
+    max / min of the slice, no running state).  Cross-checked against `intervals` on S<=6 by the
+    check before it is used."""
+    n = len(p)
+    out = {}
+    for length in range(2, n):
+        for s in range(0, n - length + 1):
+            vs = p[s:s + length]
+            if max(vs) - min(vs) == length - 1:
+                out.setdefault(length, []).append(s)
+    return out
+
+
 def block_table(p):
     """The shape Perm.block_decomposition documents: list of n lists, index = block length."""
     iv = intervals(p)
@@ -238,6 +255,22 @@ def monotone_runs(p, steps, with_ones):
                     if not grows_left and not grows_right:
                         runs.append((s, e))
     runs.sort()
+    return with_singletons(n, runs) if with_ones else runs
+
+
+def monotone_runs_linear(p, steps, with_ones):
+    """Same answer as `monotone_runs` in linear time: label every adjacent pair of positions by
+    its step if that is in `steps`, cut the labels into maximal groups of equal labels.
+    Cross-checked against `monotone_runs` on S<=6 by the check before it is used."""
+    n = len(p)
+    labels = [(p[i + 1] - p[i]) if (p[i + 1] - p[i]) in steps else None for i in range(n - 1)]
+    runs = []
+    i = 0
+    for label, grp in itertools.groupby(labels):
+        size = len(list(grp))
+        if label is not None:
+            runs.append((i, i + size))
+        i += size
     return with_singletons(n, runs) if with_ones else runs
 
 
